@@ -220,6 +220,12 @@ func boundOK(at ssa.Instruction, x ssa.Value, bound ssa.Value) (bool, string) {
 				if sl, ok := core.StripConv(y).(*ssa.Slice); ok && (sl.X == x || sameValue(sl.X, x)) {
 					return true, ""
 				}
+				// x = aead.Seal(dst, nonce, y, aad): by the cipher.AEAD contract len(x) >= len(y)
+				for _, s := range core.Sources(x) {
+					if sc, ok := s.(*ssa.Call); ok && core.IsInvoke(sc, "crypto/cipher.AEAD", "Seal") && (sc.Call.Args[2] == y || sameValue(sc.Call.Args[2], y)) {
+						return true, ""
+					}
+				}
 			case "min":
 				for _, a := range call.Call.Args {
 					if isLenOf(a, x) {
